@@ -38,10 +38,12 @@ def orig_roles(rel, facts, name, tup):
     """Original field tuple keyed by the ISA roles of mnemonic `name`."""
     spec = oracle.RV32.get(name)
     cls, attrs = rel.item_fields(name)
-    args_attrs = facts.args_attrs(cls) or []
+    args_attrs = facts.args_attrs(cls) if cls else None
     out = {}
     if spec is None:
         return out
+    if args_attrs is None or len(args_attrs) != len(spec['operands']):
+        raise AnalysisError('{}: which attributes args() of {} hands to the encoder is not understood (the operands of the original instruction cannot be named)'.format(name, cls))
     for op, attr in zip(spec['operands'], args_attrs):
         out[op['role']] = tup.get(attr)
     return out
@@ -100,7 +102,8 @@ def check_rules(rep, facts, rel, rule_sem, rule_acc, tier, only_names=None):
         bad_acc = None
         bad_sem = None
         unknown = None
-        region = rel.region_tuples(ru)
+        modes = ['literal'] + (['offset'] if oracle.RV32_FORMAT.get(ru.name) in ('J', 'B') else [])
+        region = (t for mode in modes for t in rel.region_tuples(ru, mode))
         while True:
             # a rule whose region cannot be enumerated is no verdict about that rule; the other rules are still judged
             try:
@@ -185,7 +188,7 @@ def check_structure(rep, facts, rel, rule):
         node = r['path'].end_node or rel.pa.loop
         rep.fail(Finding(rule + '.dispatch', 'transform_compressible', node, 'criteria key {!r} falls through the construction chain'.format(key), line=getattr(node, 'lineno', None)),
                  instance='dispatch ' + key)
-    rep.check(len(rel.rules) == len(rel.constructions) + len(rel.unbuilt) and len(rel.rules) > 0, rule + '.dispatch',
+    rep.check(len({ru.key for ru in rel.rules}) == len(rel.constructions) + len(rel.unbuilt) and len(rel.rules) > 0, rule + '.dispatch',
               '{} criteria keys == construction arms'.format(len(rel.rules)),
               lambda: Finding(rule + '.dispatch', 'transform_compressible', 'criteria', 'criteria keys and construction arms differ', line=rel.pa.fn.lineno))
     # name / class consistency of the compressed constructions
